@@ -75,6 +75,7 @@ structure St where
   consumedPairs : Option (List (Nat × Str)) := none
   clientCtr : Option CliCtr := none          -- the hydrated page's id counter (after `hydrate`)
   clientMap : List (Nat × Str) := []         -- what `read_data` can see on that page
+  shifted : Bool := false                    -- F-C12-4: the page has a nesting SharedValue whose data arrived
   created : List Created := []
   writes : List W
   errs : List E
@@ -375,8 +376,17 @@ def step (st : St) (line : String) : St × String :=
       | _ :: rest => go rest c shown fetches bad
     let (shown, fetches, bad, cEnd) := go st.created c0 [] 0 false
     let shownS := if shown.isEmpty then "-" else ",".intercalate shown
-    ({ st with clientCtr := some cEnd, clientMap := map },
-     s!"hydrate {shownS} fetches={fetches} ## {if bad then "fail client-value" else "ok"}")
+    -- F-C12-4 (class `nested-sharedvalue-id-shift`): a SharedValue whose initialiser creates a serialized
+    -- carrier, on a client that finds the outer value: the initialiser is skipped, the inner id is never
+    -- drawn, every later id is one too small
+    let shifted := st.created.any fun cr => match cr with
+      | Created.write k true => (match st.writes[k]? with
+          | some w => w.nested == "sv" && w.reg && (lookup w.id).isSome
+          | none => false)
+      | _ => false
+    let verdict := if !bad then "ok" else if shifted then "fail nested-sharedvalue-id-shift" else "fail client-value"
+    ({ st with clientCtr := some cEnd, clientMap := map, shifted := shifted },
+     s!"hydrate {shownS} fetches={fetches} ## {verdict}")
   | "client" :: moment :: kind :: variant :: rest =>
     let kinds := ["str", "jstr", "json", "slite", "mini", "bytes", "rkyvs", "rkyvi"]
     let hasAux := kind == "slite" || kind == "mini" || kind == "rkyvs" || kind == "rkyvi"
@@ -412,7 +422,8 @@ def step (st : St) (line : String) : St × String :=
               | none => "none"
             let loads := if w.direct then 0 else if stt == "none" then 1 else 0
             let verdict :=
-              if stt != "none" || found.isSome then "fail late-carrier-reads-transferred-data"
+              if (stt != "none" || found.isSome) && st.shifted then "fail nested-sharedvalue-id-shift"
+              else if stt != "none" || found.isSome then "fail late-carrier-reads-transferred-data"
               else if !w.direct && loads != 1 then "fail late-carrier-does-not-load"
               else "ok"
             ({ st with clientCtr := some c.nextId.2 },
